@@ -81,7 +81,7 @@ def judge_roundtrip(prop, case, obs, replies, skip=()):
             P("alternative names seen by an independent reader differ", "format/alt_names")
         if j["cls"] == "mat":
             exp = sorted((a_, b_, w) for (a_, b_), w in j["weights"])
-            got = sorted((a_, b_, repr(float(w))) for a_, b_, w in content["edges"])
+            got = sorted((a_, b_, repr(float(w))) for a_, (b_, w) in content["edges"])
             if got != exp:
                 P(f"edges seen by an independent reader {got} differ from {exp}", "format/edges")
         else:
